@@ -23,6 +23,11 @@ def run(tier):
     for rel2, q2, c2, sites, tag in XM.ITEMS:
         if tag == 'C08' and q2.endswith('.mle'):
             reps.append(deductive.verify_function(rel2, q2, c2, hooks=XM.hooks(sites), prefix='%s::%s[update equations]' % (rel2, q2)))
+    # "with each of the three engines": estimate runs the solver the caller names, on the normalised measurements (pv/contracts/totals.py)
+    from ..contracts import totals as T
+    for rel3, q3, c3 in T.ITEMS:
+        if q3 == 'FactoredInference.estimate':
+            reps.append(deductive.verify_function(rel3, q3, c3, hooks=T.hooks_for(c3), prefix='%s::%s[engine dispatch]' % (rel3, q3)))
     return reps
 
 
